@@ -42,6 +42,11 @@ def sankey_case(rec, hub, rng, tier, i):
     if len(set(names)) != len(names):
         return
     mfa = SY.build_system(fd, d)
+    if i % 3 == 2 and len(d.processes) > 2:
+        # assembled by hand: the processes dictionary is not in id order (node order = dictionary order of shown processes)
+        order = [d.processes[j] for j in rng.permutation(len(d.processes))]
+        mfa = fd.MFASystem(dims=mfa.dims, parameters=mfa.parameters, processes={n: mfa.processes[n] for n in order}, flows=mfa.flows, stocks=mfa.stocks)
+        d.processes = order
     k = 1
     for f in mfa.flows.values():
         f[...] = (k * 64.0 + rng.permutation(f.values.size) * 0.25).reshape(f.dims.shape)
